@@ -49,6 +49,11 @@ func (e StdEng) Map(fn interface{}, a Tensor, opts ...FuncOpt) (retVal Tensor, e
 			return e.Add(reuse, mapped, UseUnsafe())
 		}
 		if ad, ok := a.(DenseTensor); ok && ad != reuse {
+			// handleFuncOpts has given reuse the data order of a: its strides have to follow before anything is written
+			// through them (doing this after the fact rearranges what has been written)
+			if err = reuseCheckShape(reuse, a.Shape()); err != nil {
+				return nil, errors.Wrapf(err, "Reuse shape check failed")
+			}
 			// the function is applied to the elements of a, not to whatever reuse held before
 			if _, err = copyDenseIter(reuse, ad, nil, nil); err != nil {
 				return nil, errors.Wrapf(err, "StdEng.Map")
@@ -89,7 +94,7 @@ func (e StdEng) Map(fn interface{}, a Tensor, opts ...FuncOpt) (retVal Tensor, e
 	// SET RETVAL
 	switch {
 	case reuse != nil:
-		if ad, ok := a.(DenseTensor); !ok || ad != reuse { // when reuse is a itself its shape (and any pending transpose) is already right
+		if _, ok := a.(DenseTensor); !ok { // a dense a has had its reuse tensor shaped before the copy, above
 			if err = reuseCheckShape(reuse, a.Shape()); err != nil {
 				err = errors.Wrapf(err, "Reuse shape check failed")
 				return
